@@ -310,11 +310,33 @@ def load_findings(pid):
     return out
 
 
+class CaseTimeout(BaseException):
+    """one case kept the implementation busy for CASE_CPU_LIMIT seconds of CPU (BaseException: the code under test
+    catches Exception in several loops)"""
+
+
+CASE_CPU_LIMIT = 30
+
+
+def _case_timeout(*_):
+    raise CaseTimeout()
+
+
 def safe_run_impl(prop, case):
+    # a changed implementation may loop for ever on one history (e.g. a timer that re-arms itself at once): give
+    # each case a CPU budget so that the check reports that history instead of running into its global time limit
+    import signal
+    old = signal.signal(signal.SIGVTALRM, _case_timeout)
+    signal.setitimer(signal.ITIMER_VIRTUAL, CASE_CPU_LIMIT)
     try:
         return prop.run_impl(case)
+    except CaseTimeout:
+        return {'harness_crash': 'the implementation did not finish this history within %d s of CPU time' % CASE_CPU_LIMIT}
     except Exception:
         return {'harness_crash': traceback.format_exc()[-2000:]}
+    finally:
+        signal.setitimer(signal.ITIMER_VIRTUAL, 0)
+        signal.signal(signal.SIGVTALRM, old)
 
 
 def write_replay(pid, seed, payload):
